@@ -28,6 +28,65 @@ func (a *FuncAn) untrackedIn(g Lin) (string, bool) {
 	return "", false
 }
 
+// untrackedNear: the goal itself is over tracked values, but what the engine knows about them runs through an
+// untracked one: a loop variable of the goal is advanced by it (`i += cmd.Size()`), or the only facts that bound the
+// goal's atoms are stated relative to it (`len(data) >= s.size()`). The proof then fails for lack of knowledge about
+// that value, not because a guard is missing.
+func (a *FuncAn) untrackedNear(b *ssa.BasicBlock, g Lin) (string, bool) {
+	inGoal := map[*Atom]bool{}
+	for _, t := range g.t {
+		inGoal[t.a] = true
+		if phi, ok := a.atomVal[t.a].(*ssa.Phi); ok {
+			for _, e := range phi.Edges {
+				var el Lin
+				if _, _, isInt := a.E.intInfo(phi.Type()); isInt {
+					el = a.Lin(e)
+				} else if isSeq(phi.Type()) {
+					el = a.LenOf(e)
+				}
+				if why, un := a.untrackedIn(el); un {
+					return why + " (it advances " + t.a.Name + ")", true
+				}
+			}
+		}
+	}
+	s := a.in[b]
+	if s == nil {
+		return "", false
+	}
+	for _, f := range s.sortedFacts() {
+		shares := false
+		for _, t := range f.t {
+			if inGoal[t.a] {
+				shares = true
+			}
+		}
+		if !shares {
+			continue
+		}
+		if why, un := a.untrackedIn(f); un {
+			return why + " (the facts about " + g.t[0].a.Name + " are relative to it)", true
+		}
+		// a bound stated relative to the result of a module function that is summarised only by a range (`len(data) >=
+		// s.size()` with size() somewhere in 1..4): which value of the range applies on this path is not known
+		for _, t := range f.t {
+			if inGoal[t.a] {
+				continue
+			}
+			v := a.atomVal[t.a]
+			if ex, ok := v.(*ssa.Extract); ok {
+				v = ex.Tuple
+			}
+			if c, ok := v.(*ssa.Call); ok {
+				if callee := c.Call.StaticCallee(); callee != nil && a.E.InModule(callee) && len(a.decidedCases(c)) == 0 {
+					return "the value returned by " + FuncShort(callee) + ", known only as a range (the facts about " + g.t[0].a.Name + " are relative to it)", true
+				}
+			}
+		}
+	}
+	return "", false
+}
+
 func (a *FuncAn) untrackedAtom(at *Atom) (string, bool) {
 	if ld := a.atomLoad[at]; ld != nil {
 		return a.untrackedLoad(ld)
@@ -42,6 +101,64 @@ func (a *FuncAn) untrackedAtom(at *Atom) (string, bool) {
 	}
 	if fl := a.fieldAtomOf[at]; fl != nil {
 		return a.untrackedField(fl)
+	}
+	// the result of a dynamically dispatched method: which implementation runs depends on the dynamic type, and what
+	// ties its result to the rest of the state (a decoder accepts only inputs at least as long as its Size()) is an
+	// invariant across several methods, which the engine does not establish
+	// the length of what a module function returns, when its summary says nothing exact about that length
+	if lv := a.lenAtomOf[at]; lv != nil {
+		cv := a.cv(lv)
+		idx := 0
+		if ex, ok := cv.(*ssa.Extract); ok {
+			cv, idx = ex.Tuple, ex.Index
+		}
+		if c, ok := cv.(*ssa.Call); ok {
+			if callee := c.Call.StaticCallee(); callee != nil && !c.Call.IsInvoke() && a.E.InModule(callee) {
+				sums, ok := a.E.joinSummaries(c)
+				exact := ok && len(sums) > 0
+				for _, sm := range sums {
+					if idx >= len(sm.Res) || (sm.Res[idx].LenParam == nil && !(sm.Res[idx].HasLo && sm.Res[idx].HasHi && sm.Res[idx].Lo == sm.Res[idx].Hi)) {
+						exact = false
+					}
+				}
+				if !exact {
+					return "the length of what " + FuncShort(callee) + " returns, which no summary describes exactly", true
+				}
+			}
+		}
+	}
+	v := a.atomVal[at]
+	// a parameter of a function literal: its callers reach it through a function value (an iterator calling back)
+	if par, ok := v.(*ssa.Parameter); ok && a.Fn.Parent() != nil && par.Parent() == a.Fn {
+		return "parameter " + par.Name() + " of a function literal, supplied by whoever calls it through a function value", true
+	}
+	idx := 0
+	if ex, ok := v.(*ssa.Extract); ok {
+		v, idx = ex.Tuple, ex.Index
+	}
+	if c, ok := v.(*ssa.Call); ok {
+		if c.Call.IsInvoke() {
+			return "the result of the dynamically dispatched method " + c.Call.Method.Name(), true
+		}
+		// the result of a module function the summaries say nothing exact about (no expression over its parameters,
+		// not a bounded range): what it returns is known only by name
+		if callee := c.Call.StaticCallee(); callee != nil && a.E.InModule(callee) {
+			sums, ok := a.E.joinSummaries(c)
+			exact := ok && len(sums) > 0
+			for _, sm := range sums {
+				if idx >= len(sm.Res) {
+					exact = false
+					break
+				}
+				r := sm.Res[idx]
+				if r.ValParam == nil && !(r.HasLo && r.HasHi) {
+					exact = false
+				}
+			}
+			if !exact {
+				return "the value returned by " + FuncShort(callee) + ", which no summary describes", true
+			}
+		}
 	}
 	return "", false
 }
@@ -74,7 +191,10 @@ func (a *FuncAn) untrackedLoad(ld *ssa.UnOp) (string, bool) {
 		return "", false // a known stored value was forwarded
 	}
 	p := a.pathOf(ld.X)
-	if p == nil || len(p.steps) == 0 {
+	if p == nil {
+		return "", false
+	}
+	if _, isFV := p.root.(*ssa.FreeVar); !isFV && len(p.steps) == 0 {
 		return "", false
 	}
 	// written by a call earlier in the function?
@@ -106,6 +226,10 @@ func (a *FuncAn) untrackedLoad(ld *ssa.UnOp) (string, bool) {
 				}
 			}
 		}
+	}
+	// a variable captured by a function literal: it lives in the enclosing activation
+	if _, ok := p.root.(*ssa.FreeVar); ok {
+		return "the content of " + a.valName(ld) + ", a variable captured from the enclosing function", true
 	}
 	// state of an object the callers own
 	if par, ok := p.root.(*ssa.Parameter); ok && !a.E.Roots[a.Fn] {
